@@ -31,6 +31,8 @@ try:
         print('%s: %d instances, %d failing' % (p, len(ctx.results), len(bad)))
         for r in bad:
             print('   FAIL %s %s %s' % (r.rid, r.site, r.msg[:300]))
+        for r in getattr(ctx, 'undecided', []):
+            print('   UNDECIDED %s %s' % (r.rid, r.msg[:300]))
     sys.exit(1 if tot else 0)
 finally:
     shutil.rmtree(wd, ignore_errors=True)
